@@ -671,6 +671,7 @@ static uint64_t do_atomic(int kind, void *addr, int size, uint64_t operand, uint
 			if (newest.has_rel) { if (is_acq(mo)) t.clk.join(newest.rel); else t.pending_acq.join(newest.rel); }
 			L.floor[me] = L.first + L.hist.size() - 1;
 			append_store(addr, L, nv, mo, true, &newest);
+			if (me != 0) r.eng->on_rmw(me, addr, (size_t)size);
 		} else {
 			race_access(addr, (size_t)size, false, true);
 			if (newest.has_rel) { if (is_acq(fmo)) t.clk.join(newest.rel); else t.pending_acq.join(newest.rel); }
